@@ -24,6 +24,10 @@ MINI = {
     "entity-arith": ([IN["a"], ("place", "lamp", "inserter", I(10), I(22), None), ("prop", "lamp", "enable", B(">", B("*", V("a"), I(2)), I(5)))], ["a"], [], "value"),
     # a consumer 40 tiles from everything else: needs relay poles
     "entity-far": ([IN["a"], ("place", "lamp", "small-lamp", I(48), I(3), None), ("prop", "lamp", "enable", B(">", B("+", V("a"), I(1)), I(3)))], ["a"], [], "value"),
+    # one source driving two consumers 40 tiles apart (relay corridor along the whole row)
+    "entity-far2": ([IN["a"], ("decl", "Signal", "t1", B("+", V("a"), I(1))), ("place", "l1", "small-lamp", I(0), I(0), None),
+                     ("place", "l2", "small-lamp", I(40), I(0), None), ("prop", "l1", "enable", B(">", V("t1"), I(3))),
+                     ("prop", "l2", "enable", B(">", V("t1"), I(3)))], ["a"], [], "value"),
     "cell": ([IN["a"], IN["t"], ("mem", "m", "signal-M"), ("write", "m", ("proj", V("a"), "signal-M"), B(">", V("t"), I(0))),
               ("decl", "Signal", "r", B("+", ("read", "m"), I(1)))], ["a", "t"], ["r"], "stateful"),
     "latch": ([IN["a"], ("mem", "l", "signal-L"), ("latch", "l", I(1), B("<", V("a"), I(2)), B(">=", V("a"), I(3)), "sr"),
@@ -38,7 +42,10 @@ def renamed(name, suffix, shift):
     names = {n: n + suffix for n in lang.declared_names(stmts)}
     out = lang.subst_stmts(stmts, None, names)
     # move user entities apart
-    out = [("place", s[1], s[2], ("int", s[3][1] + shift), s[4], s[5]) if s[0] == "place" else s for s in out]
+    if name == "entity-far2":     # the second copy runs two tiles below the first
+        out = [("place", s[1], s[2], s[3], ("int", s[4][1] + (2 if shift else 0)), s[5]) if s[0] == "place" else s for s in out]
+    else:
+        out = [("place", s[1], s[2], ("int", s[3][1] + shift), s[4], s[5]) if s[0] == "place" else s for s in out]
     return out, [names[i] for i in inputs], [names[o] for o in outs], mode
 
 
@@ -59,7 +66,7 @@ class C12(core.Check):
     pid = "C12"
     level = "model_checking"
     timeout = 400
-    rule = ("all ordered pairs (P, Q) of a 15-program corpus (incl. a consumer 40 tiles away, also built with medium poles / substations) that reuse the same signal names and constants, names made "
+    rule = ("all ordered pairs (P, Q) of a 16-program corpus (incl. a consumer 40 tiles away, also built with medium poles / substations) that reuse the same signal names and constants, names made "
             "disjoint, x order-preserving interleavings of their statements (all of them in the thorough tier, 6 spread "
             "over the whole set in the quick tier); P's outputs and entity conditions in build(P;Q) are compared with "
             "build(P) for the full product of P's and Q's input values; stateful P by lock-step BFS over events on P's "
